@@ -97,6 +97,8 @@ package yoda
 //@ loop 1: invariant forall j :: 0 <= j && j < #i && events[#i_out].Attributes[j].Key == evKey ==> (exists k :: 0 <= k && k < len(res) && res[k] == events[#i_out].Attributes[j].Value)
 //@ loop 1: invariant forall k :: 0 <= k && k < len(res) ==> (exists i, j :: 0 <= i && i <= #i_out && events[i].Type == evType && 0 <= j && j < len(events[i].Attributes) && (i < #i_out || j < #i) && events[i].Attributes[j].Key == evKey && res[k] == events[i].Attributes[j].Value)
 //@ loop 1: invariant events[#i_out].Type == evType
+// (an element that is skipped is skipped alone: no break ends the visit of the rest)
+//@ loop 0: exhaustive
 
 // C19: a transaction's request events start one handler per request id - but never for a request that is already in the
 // pending set (at start-up yoda subscribes to new transactions BEFORE it sweeps the requests already pending on chain: a
